@@ -21,20 +21,20 @@ REQUIRED_COUNTERS = ["sessions", "close_injected", "state_samples_after_close", 
 SHARD_TIMEOUT = {"quick": 400, "thorough": 3000}
 
 SHAPES = ("plain", "refusing", "slow_transport", "fault_reconnect", "slow_receive_cb", "send", "after_close_calls",
-          "send_fault_read_silent", "send_write_error")
+          "send_fault_read_silent", "send_write_error", "double_close", "double_connect", "never_connected")
 
 
 def shards(tier, seed):
     out = []
     for kind in simgw.KINDS:
         for shape in SHAPES:
-            for scb in (("ok",) if tier == "quick" and shape not in ("plain", "slow_transport", "fault_reconnect", "send_write_error", "send_fault_read_silent") else ("ok", "raise", "slow", "slow_connected")):
+            for scb in (("ok",) if tier == "quick" and shape not in ("plain", "slow_transport", "fault_reconnect", "send_write_error", "send_fault_read_silent", "double_close") else ("ok", "raise", "slow", "slow_connected", "slow_closed")):
                 out.append({"name": f"{kind}-{shape}-{scb}", "kind": kind, "shape": shape, "scb": scb, "tier": tier, "seed": seed})
     return out
 
 
 def session(kind, shape, step, scb):
-    info = {"close_step": None, "close_ret_step": None}
+    info = {"close_step": None, "close_ret_step": None, "open_after_a_close_returned": []}
 
     async def scenario(sim):
         loop = sim.loop
@@ -43,6 +43,10 @@ def session(kind, shape, step, scb):
         def do_close():
             info["close_step"] = loop.steps
             sim.spawn("close")
+            if shape == "double_close":
+                # a second close() while the first one is still running (one and three steps later)
+                loop.at_step(loop.steps + 1, lambda: sim.spawn("close"))
+                loop.at_step(loop.steps + 3, lambda: sim.spawn("close"))
         if shape == "refusing":
             sim.connect_script = [("refuse", errs[0], 0.01), ("refuse", errs[1], 0.3), ("refuse", errs[2], 0.01)]
         elif shape == "slow_transport":
@@ -61,8 +65,25 @@ def session(kind, shape, step, scb):
                         conn.reset(simgw.serial_loss_exception() if kind == "waveshare" else ConnectionResetError(104, "reset"))
                 loop.call_later(0.12, fault)
         sim.on_accept.append(on_accept)
+
+        def a_close_returned():
+            # any close() call that returns promises a shut link and silence: look 0.1 virtual s later (a connect that
+            # was in flight may need a moment to notice), and offer a packet on whatever is still open
+            def look():
+                still = [c for c in sim.conns if not c.lost and not c.closing]
+                if still:
+                    info["open_after_a_close_returned"].append([c.id for c in still])
+                    for c in still:
+                        c.feed(packet(kind, 240))
+            loop.call_later(0.1, look)
+        sim.on_close_return.append(a_close_returned)
         loop.at_step(step, do_close)
-        sim.spawn("connect")
+        if shape != "never_connected":
+            sim.spawn("connect")
+        if shape == "double_connect":
+            # a second and a third connect() while the first is in flight / after it finished
+            loop.at_step(2, lambda: sim.spawn("connect"))
+            loop.call_later(0.2, lambda: sim.spawn("connect"))
         if shape == "send":
             await asyncio.sleep(0.1)
             if sim.conns:
@@ -95,7 +116,10 @@ def session(kind, shape, step, scb):
                 break
             await asyncio.sleep(0.01)
         info["close_ret_step"] = loop.steps
-        if shape == "after_close_calls" and sim.close_returned:
+        if shape == "double_close" and sim.close_returned:
+            sim.spawn("close")
+            await asyncio.sleep(0.2)
+        if shape in ("after_close_calls", "never_connected") and sim.close_returned:
             sim.spawn("connect")
             sim.spawn("send", make_send_message(kind))
             await asyncio.sleep(0.5)
@@ -144,6 +168,9 @@ def check(sim, stats, info, acc, kind, shape, step, scb):
     open_conns = [c.id for c in sim.conns if not c.closing and not c.lost]
     if open_conns:
         acc.violation("link-left-open-after-close", f"{kind}/{shape}: connection(s) {open_conns} still open 40 virtual s after close() (step {step})", w)
+    if info["open_after_a_close_returned"]:
+        acc.violation("link-open-after-a-close-call-returned", f"{kind}/{shape}: 0.1 virtual s after a close() call returned (close issued at step {step}) connection(s) "
+                      f"{info['open_after_a_close_returned'][0]} were still open", w)
     # 3. no receive callback after close() returned
     if sim.recv_after_close_returned:
         acc.violation("receive-callback-after-close-returned", f"{kind}/{shape}: {sim.recv_after_close_returned} receive callback(s) after close() returned", w)
